@@ -152,6 +152,7 @@ structure Accepted (s s' : State) (to : Addr) (froms : List Addr) (rs : List Rec
       else ∃ r', kvGet s'.recs (to, keyOf r) = some r' ∧ r'.coins = r.coins ∧
         r'.unacc = r.unacc.filter (fun a => !froms.contains a) ∧
         r'.acc = r.acc ++ r.unacc.filter (fun a => froms.contains a)
+  outFor : ∀ t d, outstandingFor s' t d = outstandingFor s t d - (if to = t then relSum froms rs d else 0)
 
 theorem filter_not_of_filter_empty {l froms : List Addr}
     (h : (l.filter fun a => froms.contains a).isEmpty = true) : l.filter (fun a => !froms.contains a) = l := by
@@ -175,7 +176,7 @@ theorem acceptLoop_ok (to : Addr) (froms : List Addr) :
     simp only [acceptLoop, Except.ok.injEq, Prod.mk.injEq] at h
     obtain ⟨rfl, rfl⟩ := h
     exact ⟨inv, SameRest.refl _, rfl, by simp [relSum], by simp [relSum], by simp [relSum], fun _ => rfl,
-      by simp [relSum], fun _ _ => rfl, by simp⟩
+      by simp [relSum], fun _ _ => rfl, by simp, by simp [relSum]⟩
   | cons r rest ih =>
     intro s s' rel rel' inv snap h
     have hstored := snap.stored r (List.mem_cons_self ..)
@@ -193,7 +194,9 @@ theorem acceptLoop_ok (to : Addr) (froms : List Addr) :
       have A := ih s s' rel rel' inv snap.tail h
       have hemp := acceptFrom_none haf
       have hrel : releases froms r = false := by unfold releases; rw [hemp]; rfl
-      refine ⟨A.inv, A.rest, A.qin, ?_, ?_, ?_, A.supply, ?_, ?_, ?_⟩
+      refine ⟨A.inv, A.rest, A.qin, ?_, ?_, ?_, A.supply, ?_, ?_, ?_, ?_⟩
+      rotate_right 1
+      · intro t d; rw [A.outFor]; simp [relSum, hrel]
       · intro d; rw [A.rel]; simp [relSum, hrel]
       · intro d; rw [A.qout]; simp [relSum, hrel]
       · intro a d; rw [A.bal]; simp [relSum, hrel]
@@ -236,7 +239,13 @@ theorem acceptLoop_ok (to : Addr) (froms : List Addr) :
           have := setQR_get_self s to r2 inv.nodup
           rw [hk2, hfa2] at this
           simpa using this
-        refine ⟨A.inv, (setQR_sameRest s to r2).trans A.rest, by rw [A.qin]; simp, ?_, ?_, ?_, ?_, ?_, ?_, ?_⟩
+        have houtFor1 : ∀ t d, outstandingFor (setQuarantineRecord s to r2) t d = outstandingFor s t d := by
+          intro t d
+          rw [outstandingFor_setQR, hk2, coinsAt_of_get hstored, hfa2, hc2]
+          simp
+        refine ⟨A.inv, (setQR_sameRest s to r2).trans A.rest, by rw [A.qin]; simp, ?_, ?_, ?_, ?_, ?_, ?_, ?_, ?_⟩
+        rotate_right 1
+        · intro t d; rw [A.outFor, houtFor1]; simp [relSum, hrel]
         · intro d; rw [A.rel]; simp [relSum, hrel]
         · intro d; rw [A.qout]; simp [relSum, hrel]
         · intro a d; rw [A.bal]; simp [relSum, hrel]
@@ -287,7 +296,18 @@ theorem acceptLoop_ok (to : Addr) (froms : List Addr) :
             simpa using this
           have hrest0 : SameRest s { s with bank := Ledger.move s.bank s.holder to r1.coins, qout := Coins.add s.qout r1.coins } :=
             ⟨rfl, rfl, rfl, rfl, rfl⟩
-          refine ⟨A.inv, (hrest0.trans (setQR_sameRest _ to r1)).trans A.rest, by rw [A.qin]; simp, ?_, ?_, ?_, ?_, ?_, ?_, ?_⟩
+          have houtFor1 : ∀ t d, outstandingFor (setQuarantineRecord { s with bank := Ledger.move s.bank s.holder to r1.coins, qout := Coins.add s.qout r1.coins } to r1) t d
+              = outstandingFor s t d - (if to = t then Coins.amountOf r.coins d else 0) := by
+            intro t d
+            rw [outstandingFor_setQR, hk1, hfa]
+            have : coinsAt { s with bank := Ledger.move s.bank s.holder to r1.coins, qout := Coins.add s.qout r1.coins } to (keyOf r) = r.coins :=
+              coinsAt_of_get hstored
+            rw [this]
+            show outstandingFor s t d + (if to = t then (if true = true then 0 else _) - _ else 0) = _
+            split <;> simp <;> omega
+          refine ⟨A.inv, (hrest0.trans (setQR_sameRest _ to r1)).trans A.rest, by rw [A.qin]; simp, ?_, ?_, ?_, ?_, ?_, ?_, ?_, ?_⟩
+          rotate_right 1
+          · intro t d; rw [A.outFor, houtFor1]; simp only [relSum, hrel, if_true]; split <;> omega
           · intro d; rw [A.rel]; simp [relSum, hrel, hc1]; omega
           · intro d; rw [A.qout]; simp [relSum, hrel, hc1]; omega
           · intro a d
@@ -318,6 +338,7 @@ structure Declined (s s' : State) : Prop where
   qout : s'.qout = s.qout
   coins : ∀ k, (kvGet s'.recs k).map (·.coins) = (kvGet s.recs k).map (·.coins)
   out : ∀ d, outstanding s' d = outstanding s d
+  outFor : ∀ t d, outstandingFor s' t d = outstandingFor s t d
 
 theorem declineLoop_ok (to : Addr) (froms : List Addr) :
     ∀ (rs : List Record) (s : State), StoreInv s → Snapshot s to rs → Declined s (declineLoop s to froms rs) := by
@@ -325,7 +346,7 @@ theorem declineLoop_ok (to : Addr) (froms : List Addr) :
   induction rs with
   | nil =>
     intro s inv _
-    exact ⟨inv, SameRest.refl _, rfl, rfl, rfl, fun _ => rfl, fun _ => rfl⟩
+    exact ⟨inv, SameRest.refl _, rfl, rfl, rfl, fun _ => rfl, fun _ => rfl, fun _ _ => rfl⟩
   | cons r rest ih =>
     intro s inv snap
     have hstored := snap.stored r (List.mem_cons_self ..)
@@ -346,7 +367,11 @@ theorem declineLoop_ok (to : Addr) (froms : List Addr) :
         rw [hk1, hfa] at this
         simpa using this
       refine ⟨A.inv, (setQR_sameRest s to r1).trans A.rest, by rw [A.bank]; simp, by rw [A.qin]; simp,
-        by rw [A.qout]; simp, ?_, ?_⟩
+        by rw [A.qout]; simp, ?_, ?_, ?_⟩
+      rotate_right 1
+      · intro t d
+        rw [A.outFor, outstandingFor_setQR, hk1, coinsAt_of_get hstored, hfa, hc1]
+        simp
       · intro k
         rw [A.coins k]
         by_cases hk : k = (to, keyOf r)
@@ -391,6 +416,10 @@ theorem OnlySettings.inv {s s' : State} (h : OnlySettings s s') (inv : StoreInv 
 theorem OnlySettings.outstanding {s s' : State} (h : OnlySettings s s') (d : Denom) :
     outstanding s' d = outstanding s d := by
   unfold Quar.outstanding; rw [h.recs]
+
+theorem OnlySettings.outstandingFor {s s' : State} (h : OnlySettings s s') (t : Addr) (d : Denom) :
+    outstandingFor s' t d = outstandingFor s t d := by
+  unfold Quar.outstandingFor; rw [h.recs]
 
 theorem setAutoResponse_only (s : State) (to f : Addr) (r : AutoResp) : OnlySettings s (setAutoResponse s to f r) := by
   unfold setAutoResponse; split <;> exact ⟨rfl, rfl, rfl, rfl, rfl, rfl, rfl, rfl⟩
